@@ -131,6 +131,16 @@ PROPS = {
                      "raw kinds in the input are valid for the user's Syntax (from_raw of a derived Syntax panics on unknown kinds; outside cstree's control)"],
         not_yet_proved=["ser_red: the event stream computed by the Red-level serialiser (walk of preorder_with_tokens) equals serEv of the decorated reference tree (tied by correspondence)"],
     ),
+    "C17": dict(
+        runs=runs([("probe:c17", "rustc")], [("probe:c17", "rustc")]),
+        rule="cases = generated enum definitions: 30 (thorough 60) well-formed ones with 1..24 (thorough 1..300) variants and random static_text annotations (empty, multi-byte, "
+             "quotes, backslash, newline), compiled into ONE crate whose main checks, for every raw value 0..n+2 and u32::MAX under catch_unwind, from_raw/into_raw "
+             "round trip, panic outside the range, and the static text of every variant; 36 (thorough 90) ill-formed definitions (struct, union, missing/wrong/double repr, "
+             "variants with named or tuple fields, explicit discriminants, static_text without argument / as name-value / with a non-string / twice, combinations) plus 4 "
+             "well-formed controls compiled into ONE crate: every ill-formed definition must draw an error located in it, the controls none; distinct = distinct definition",
+        assumptions=["syn and rustc are the implementation of parsing and of discriminant assignment; the model covers the derive's decision logic, the generated conversions and Rust's discriminant rule"],
+        not_yet_proved=[],
+    ),
     "C19": dict(
         runs=runs([("fmt", "release")], [("fmt", "release"), ("fmt", "debug"), ("fmt", "lasso")]),
         rule="cases = for every byte length 0..40 (thorough 0..60): 8 (thorough 12) texts built from 1-4 byte characters in different patterns + 4-byte runs shifted "
